@@ -260,7 +260,7 @@ def run(ctx: Ctx):
         cases.append(("corpus:" + f.name, _int_keys(rec["cfg"]), rec.get("digest_steps", 0)))
     # 2. generated families
     rng = ctx.rng.fork("scenarios")
-    n_gen = ctx.scale(18, 300)
+    n_gen = ctx.scale(18, 200)
     for k in range(n_gen):
         fam = G.FAMILIES[k % 3]
         cfg = G.gen_scenario(rng, size=1 + (k // 3) % 3, family=fam, shadowing=(k % 4 == 3), node_sets=False)
